@@ -24,6 +24,7 @@ UNITS = {
     'parser': {'sources': ('core', 'fpdec'), 'modes': ('F', 'D')},
     'rem': {'sources': ('core', 'fpdec'), 'modes': ('F', 'D')},
     'checked_rem': {'sources': ('core', 'fpdec'), 'modes': ('F', 'D'), 'module': 'rem', 'builder': 'build_checked'},
+    'dec_macro': {'sources': ('core', 'fpdec', 'macros'), 'modes': ('F', 'D')},
     'cmp': {'sources': ('core', 'fpdec'), 'modes': ('F', 'D')},
     'checked_add_sub': {'sources': ('core', 'fpdec'), 'modes': ('F', 'D'), 'module': 'add_sub', 'builder': 'build_checked'},
 }
@@ -181,6 +182,17 @@ PROPS = {
             'compound assignment: impl<T> OpAssign<T> for Decimal is verified generically: same precondition and value as the operator for every T',
             'multiplication: the integer forms are judged against the exact product at the Decimal scale (no one/zero short-cut), as the property allows',
             'quantize (generic blanket impl) is NOT under contract',
+        ],
+    },
+    'C18': {
+        'units': ['parser', 'dec_macro'],
+        'title': 'The Dec! macro and runtime parsing agree on every literal',
+        'design_ref': 'DESIGN.md section 7 (C18)',
+        'level_text': 'Verus proves that the body of the proc macro Dec (the real exponent-folding code between token-stream extraction and quote!) returns - for every source text - exactly the (coefficient, fractional digits) pair given by the same specification parse_decimal_spec against which Decimal::from_str is proved (unit parser), and panics (= compile error) exactly when that specification is None. Function-level proof; the quantifier over programs rests on the assumption below.',
+        'assumptions': [
+            'R9: proc_macro::TokenStream::to_string renders an optionally signed literal as its source text with at most one blank after the sign, which the macro removes (these three statements are replaced by the stub r9_literal_text; the token stream and quote! are compiler API outside Verus)',
+            'quote!(Decimal::new_raw(#coeff, #n_frac_digits)) emits exactly that call (pattern-checked on the expansion, otherwise exit 2)',
+            'i128::pow by assume_specification',
         ],
     },
     'C20': {
